@@ -69,17 +69,20 @@ def run(S):
     auth = z3.If(is_ldk, ldk_ok, hmac_ok)
     pre = pre_time + caller + [info_ok]
     spec_ok = z3.And(auth, total >= z3.If(min_some, min_v, 0), expiry >= seen.t)
+    cases = [z3.And(md == k, min_some == ms) for k in range(5) for ms in (True, False)]
     b_rt = Binding('inbound_roundtrip', [z3.If(min_some, 1, 0), z3.If(min_some, min_v, 0), delta.t, time.t, z3.If(cltv_some, 1, 0), z3.If(cltv_some, cltv_v, 0), total, seen.t],
                    [z3.IntVal(0), z3.If(ok, 1, 0), z3.If(z3.And(ok, X.zint(out_cltv.d) == 1), 1, 0), z3.If(z3.And(ok, X.zint(out_cltv.d) == 1), out_cltv.vs[1][0].t, 0)])
     user = z3.Or(md == MV('UserPaymentHash'), md == MV('UserPaymentHashCustomFinalCltv'))
-    S.prove('C04.a.thresholds', E, pre, ok == spec_ok,
-            'a payment secret issued for (min amount, expiry) verifies iff the authentication check passes, total_msat >= the committed minimum and the committed expiry (time + delta + 7200 s) has not passed; the method bits, the 61-bit amount, the 2-byte CLTV delta and the 6/8-byte expiry never overlap',
-            [b_info], bounds='all u64 amounts/totals, u32 deltas, times < 2^40, 5 methods')
+    names = ['LdkPaymentHash', 'UserPaymentHash', 'LdkPaymentHashCustomFinalCltv', 'UserPaymentHashCustomFinalCltv', 'SpontaneousPayment']
+    for k, nm in enumerate(names):
+        S.prove('C04.a.thresholds.%s' % nm, E, pre + [md == MV(nm)], ok == spec_ok,
+                'method %s: a payment secret issued for (min amount, expiry) verifies iff the authentication check passes, total_msat >= the committed minimum and the committed expiry (time + delta + 7200 s) has not passed; the method bits, the 61-bit amount, the 2-byte CLTV delta and the 6/8-byte expiry never overlap' % nm,
+                [b_info], bounds='all u64 amounts/totals, u32 deltas, times < 2^40', split=[min_some, z3.Not(min_some)])
     S.prove('C04.a.thresholds_native', E, pre + [user, hmac_ok], ok == z3.And(total >= z3.If(min_some, min_v, 0), expiry >= seen.t),
             'same boundary, replayable end to end through the real create_from_hash + verify (real HMAC/ChaCha20) for user-hash payments',
-            [b_rt, b_info])
+            [b_rt, b_info], split=cases)
     S.prove('C04.a.cltv_roundtrip', E, pre, z3.Implies(ok, z3.And((X.zint(out_cltv.d) == 1) == cltv_some, z3.Implies(cltv_some, out_cltv.vs[1][0].t == cltv_v))),
-            'the min_final_cltv_expiry_delta committed at creation is returned unchanged by verify (and none is returned when none was committed)', [b_rt, b_info])
+            'the min_final_cltv_expiry_delta committed at creation is returned unchanged by verify (and none is returned when none was committed)', [b_rt, b_info], split=cases)
     S.prove('C04.a.unauthentic_refused', E, pre + [z3.Not(auth)], z3.Not(ok),
             'a secret failing the HMAC / preimage check is refused whatever amounts it carries')
     S.no_panic('C04.a.nopanic', E, pre, 'verify is panic-free on every packed metadata block', [b_rt], only=lambda p: p in ver_panics)
